@@ -49,6 +49,8 @@ class HState:
         self.cfg = cfg
         self.prop = cfg["prop"]
         self.w = World(cfg["template"], prefix, mode=cfg.get("mode", "new"), loopopts=cfg.get("loopopts"))
+        if cfg.get("defer_recording"):
+            self.w.sched.recording = False  # set-up runs under the default schedule, unrecorded
         self.w.start()
         self.model = Store()
         for name, ms in cfg["init"].items():
